@@ -50,13 +50,98 @@ REJECT = (ValueError, LookupError)
 APIS = ['bind_str', 'bind_tuple', 'parse_flat', 'block', 'multi', 'hook_str', 'hook_tuple']
 
 
+DYN_SRC = ('class Pipeline:\n'
+           '  def __init__(self, name=None):\n    self.name = name\n\n'
+           '  def run(self, steps=1, rate=2):\n    return {"steps": steps, "rate": rate}\n\n'
+           '  def other(self, x=0):\n    return x\n')
+DYN_CONFIG = ('from __gin__ import dynamic_registration\nimport c11dyn.mod as dm\n'
+              'dm.Pipeline.run.steps = 3\n')
+
+
+def check_dyn(case):
+  """A method registered through dynamic registration, then addressed from outside that file."""
+  import os, shutil, sys, tempfile  # pylint: disable=g-import-not-at-top,multiple-imports
+  tmp = tempfile.mkdtemp(prefix='c11-')
+  try:
+    os.makedirs(os.path.join(tmp, 'c11dyn'))
+    open(os.path.join(tmp, 'c11dyn', '__init__.py'), 'w').close()
+    with open(os.path.join(tmp, 'c11dyn', 'mod.py'), 'w') as f:
+      f.write(DYN_SRC)
+    sys.path.insert(0, tmp)
+    gin.parse_config(DYN_CONFIG)
+    import c11dyn.mod as mod  # pylint: disable=g-import-not-at-top,import-error
+    model = {('', 'steps'): 3}
+    labels = {'kind:dynamic-method'}
+    spell = {'full': 'c11dyn.dm.Pipeline.run', 'short': 'dm.Pipeline.run', 'bare': 'run',
+             'class_dot': 'Pipeline.run', 'unknown': 'nosuch_run', 'unknown_mod': 'nosuch.run'}
+
+    def observe():
+      out = {}
+      for scope in ('', 's'):
+        with gin.config_scope(scope or None):
+          out[scope] = gin.get_configurable(mod.Pipeline)().run()
+        app = M.overlay(model, scope.split('/') if scope else [])
+        exp = {'steps': app.get('steps', 1), 'rate': app.get('rate', 2)}
+        require(out[scope] == exp, 'injected-values',
+                lambda: f'scope {scope!r}: got {out[scope]} model {exp}')
+      return out, gin.config_str()
+
+    for api, sp_kind, scope, param, value in case['attempts']:
+      sp = spell[sp_kind]
+      key = (scope + '/' if scope else '') + sp
+      accepted = sp_kind in ('full', 'short', 'class_dot') and param in ('steps', 'rate')
+      before = observe()
+      if api == 'bind_str':
+        fn = lambda: gin.bind_parameter(f'{key}.{param}', value)
+      elif api == 'bind_tuple':
+        fn = lambda: gin.bind_parameter((scope, sp, param), value)
+      elif api in ('parse_flat', 'multi'):
+        fn = lambda: gin.parse_config(f'{key}.{param} = {value!r}\n')
+      elif api == 'block':
+        fn = lambda: gin.parse_config(f'{key}:\n  {param} = {value!r}\n')
+      else:
+        hk = f'{key}.{param}' if api == 'hook_str' else (scope, sp, param)
+        gin.config.register_finalize_hook(lambda config, hk=hk: {hk: value})
+        fn = gin.finalize
+      try:
+        fn()
+        raised = None
+      except REJECT as e:
+        raised = e
+      labels.add('api:' + api)
+      labels.add('spelling:' + sp_kind)
+      if accepted:
+        require(raised is None, 'valid-binding-rejected', lambda: f'{api} {key}.{param}: {raised!r}')
+        model[(scope, param)] = value
+        observe()
+        labels.add('verdict:accepted')
+      else:
+        require(raised is not None, 'invalid-binding-accepted',
+                lambda: f'{api} {key}.{param} accepted for a method registered through dynamic '
+                        f'registration (bare method name or unknown parameter)')
+        require(observe() == before, 'rejected-binding-changed-config', f'{api} {key}.{param}')
+        labels.add('verdict:rejected')
+        labels.add('nontrivial')
+      if api.startswith('hook'):
+        break
+    return ok(labels, 'nontrivial' in labels)
+  finally:
+    if tmp in sys.path:
+      sys.path.remove(tmp)
+    shutil.rmtree(tmp, ignore_errors=True)
+
+
 def check_case(case):
+  if case.get('dyn'):
+    return check_dyn(case)
   shape = case['shape']
   built = G.build(shape, gin)
   sig = built.signature()
   named = G.named_params(shape)
   allow, deny = shape.get('allowlist'), shape.get('denylist')
   labels = {'kind:' + shape['kind'], 'lists:' + ('allow' if allow else 'deny' if deny else 'none')}
+  if shape.get('decorated'):
+    labels.add('decorated-function')
   full = built.selector
   parts = full.split('.')
   is_method = shape['kind'] == 'method'
@@ -191,9 +276,28 @@ def _param_classes(shape):
 
 
 @st.composite
-def strategy(draw):
+def _dyn_case(draw):
+  attempts = []
+  for i in range(draw(st.integers(1, 4))):
+    attempts.append([draw(st.sampled_from(APIS)),
+                     draw(st.sampled_from(['full', 'short', 'bare', 'bare', 'class_dot', 'unknown'])),
+                     draw(st.sampled_from(['', '', 's'])),
+                     draw(st.sampled_from(['steps', 'rate', 'zz_unknown'])), 'A%d' % i])
+  return {'dyn': True, 'attempts': attempts}
+
+
+def strategy():
+  return st.one_of(_static_case(), _static_case(), _static_case(), _static_case(), _dyn_case())
+
+
+@st.composite
+def _static_case(draw):
   shape = draw(G.shapes())
   shape['method_api'] = 'register'
+  if shape['kind'] == 'function' and draw(st.integers(0, 2)) == 0:
+    # the function is wrapped by 1-2 functools.wraps decorators before it is registered: its
+    # configurable parameters are still those of the real signature
+    shape['decorated'] = draw(st.integers(1, 2))
   named = G.named_params(shape)
   lists = draw(st.sampled_from(['none', 'allow', 'deny']))
   pool = named + (G.EXTRA if shape['varkw'] else [])
@@ -225,6 +329,8 @@ def sweep(tier):
           if lists is None and False:
             continue
           shape = dict(base, kind=kind, api=api_reg, varkw=varkw)
+          if kind == 'function' and api_reg == 'configurable':
+            shape['decorated'] = 1
           if lists:
             shape[lists[0]] = lists[1]
           for api in APIS:
